@@ -348,7 +348,8 @@ func (i *Interpreter) validateAndSetParameters(sub *ast.SubroutineDeclaration, a
 				err.Error(),
 			)
 		}
-		i.localVars[param.Name.Value] = converted
+		// Arguments are passed by value: the callee must not share the caller's variable
+		i.localVars[param.Name.Value] = converted.Copy()
 	}
 
 	return nil
